@@ -87,6 +87,18 @@ pub fn swap(
         adaptive_fee_info,
     )?;
 
+    #[cfg(orca_so_whirlpools_verif)]
+    crate::verif_hooks::swap_begin(
+        whirlpool.sqrt_price,
+        whirlpool.liquidity,
+        whirlpool.tick_current_index,
+        amount,
+        sqrt_price_limit,
+        amount_specified_is_input,
+        a_to_b,
+        timestamp,
+    );
+
     while amount_remaining > 0 && adjusted_sqrt_price_limit != curr_sqrt_price {
         let (next_array_index, next_tick_index) = swap_tick_sequence
             .get_next_initialized_tick_index(
@@ -115,6 +127,21 @@ pub fn swap(
                 amount_specified_is_input,
                 a_to_b,
             )?;
+
+            #[cfg(orca_so_whirlpools_verif)]
+            crate::verif_hooks::swap_step(
+                &swap_computation,
+                curr_sqrt_price,
+                bounded_sqrt_price_target,
+                sqrt_price_target,
+                curr_liquidity,
+                total_fee_rate,
+                adaptive_fee_update_skipped,
+                &fee_rate_manager,
+                next_tick_index,
+                next_array_index,
+                curr_tick_index,
+            );
 
             if amount_specified_is_input {
                 amount_remaining = amount_remaining
@@ -153,6 +180,8 @@ pub fn swap(
             );
             curr_protocol_fee = next_protocol_fee;
             curr_fee_growth_global_input = next_fee_growth_global_input;
+            #[cfg(orca_so_whirlpools_verif)]
+            crate::verif_hooks::swap_step_fees(curr_protocol_fee, curr_fee_growth_global_input);
 
             if swap_computation.next_price == next_tick_sqrt_price {
                 let (next_tick, next_tick_initialized) = swap_tick_sequence
@@ -176,6 +205,8 @@ pub fn swap(
                     )?;
 
                     curr_liquidity = next_liquidity;
+                    #[cfg(orca_so_whirlpools_verif)]
+                    crate::verif_hooks::swap_step_cross(next_tick_index, curr_liquidity);
                     swap_tick_sequence.update_tick(
                         next_array_index,
                         next_tick_index,
